@@ -34,7 +34,7 @@ IDENT = ("GraphID", "NodeID", "Class", "Name", "Type")
 def conc_name(n):
     """abstract names starting with '!' stand for names outside every NAME_REGEX"""
     if n.startswith("!"):
-        return "x"      # one character: too short for every sliver class but interfaces; "!" for those
+        return "!"      # not a word character, and too short for most classes
     return n
 
 
@@ -213,8 +213,11 @@ class TopoRunner:
         args = self.HANDLE_ARGS.get(o["op"])
         if args is None and o["op"] not in self.OBSERVERS:
             self.handles = {}
+        import contextlib
+        import io
         try:
-            res = self._dispatch(o)
+            with contextlib.redirect_stdout(io.StringIO()):     # the library prints diagnostics
+                res = self._dispatch(o)
         except Exception as e:  # noqa
             return type(e).__name__, {"k": "none"}
         if args is not None:
